@@ -11,7 +11,7 @@ from typing import Any
 import z3
 
 from . import sym
-from .values import (BoundBuiltin, BoundMethod, BuiltinRef, ClassRef, Closure, ExcVal, FuncRef, ModuleRef, NOTIMPL,
+from .values import (HeapList, BoundBuiltin, BoundMethod, BuiltinRef, ClassRef, Closure, ExcVal, FuncRef, ModuleRef, NOTIMPL,
                      Obj, Opaque, PDict, PList, SArr, SBool, SInt, SMap, SName, SOpt, SReal, SSeq, SSet, SStrOpaque,
                      SpecFn, Unsupported, num_term, real_term)
 
@@ -391,6 +391,8 @@ class Models:
     def seq_len(self, v):
         if isinstance(v, SSeq):
             return v.n
+        if isinstance(v, HeapList):
+            raise Unsupported("len of heap list outside an interpreter context")
         if isinstance(v, SArr):
             if v.n is None:
                 raise Unsupported("len of 2-D array")
@@ -687,11 +689,17 @@ class Models:
         if isinstance(o.n, int) and isinstance(lo, int) and (k.stop is None or isinstance(k.stop, int)):
             idxs = range(o.n)[k]
             return SSeq(len(idxs), lambda j, idxs=idxs: o.get(idxs[j] if isinstance(j, int) else None), o.kind, o.elem_desc)
-        if not isinstance(lo, int) or lo < 0 or k.stop is not None:
-            raise Unsupported("general slice of symbolic-length sequence")
+        # general Python slice semantics with symbolic bounds (slice.indices for step 1)
         nt = self.len_term(o.n)
-        newn = z3.If(nt >= lo, nt - lo, z3.IntVal(0))
-        return SSeq(newn, lambda j: o.get(self.len_term(j) + lo), o.kind, o.elem_desc)
+
+        def norm(i):
+            it = num_term(i) if not isinstance(i, int) else z3.IntVal(i)
+            return z3.If(it < 0, sym.zmax(it + nt, z3.IntVal(0)), sym.zmin(it, nt))
+        a = norm(lo)
+        b = nt if k.stop is None else norm(k.stop)
+        newn = z3.simplify(z3.If(b >= a, b - a, z3.IntVal(0)))
+        res = SSeq(newn, lambda j: o.get(z3.simplify(self.len_term(j) + a)), o.kind, o.elem_desc)
+        return res
 
     def gather(self, ip, o, idx):
         O, Ix = self.as_seq(o), self.as_seq(idx)
@@ -810,6 +818,8 @@ class Models:
 
     def as_seq_iter(self, ip, it) -> SSeq:
         """Iterable -> sequence view (enumerate/zip/range handled pointwise)."""
+        if isinstance(it, HeapList):
+            return ip.schema.hl_snapshot(ip, it)
         if isinstance(it, (SSeq, SArr)):
             return self.as_seq(it)
         if isinstance(it, (Obj, Opaque)):
@@ -842,6 +852,8 @@ class Models:
 
     # ------------------------------------------------------------------ attributes of engine values
     def getattr(self, ip, o, attr, node=None):
+        if isinstance(o, HeapList):
+            return BoundBuiltin(o, attr)
         if isinstance(o, (PList, PDict, SArr, SSeq, SSet, SMap, str, SStrOpaque, tuple, SName)) or isinstance(o, (int, float, SReal, SInt)):
             if isinstance(o, SArr):
                 if attr == "shape":
@@ -923,6 +935,8 @@ class Models:
     # ---- python builtins
     def b_len(self, ip, a, kw, node):
         v = a[0]
+        if isinstance(v, HeapList):
+            return SInt(ip.schema.hl_len(ip, v))
         if isinstance(v, (Obj, Opaque)):
             return ip.call_method(v, "__len__", [], {}, node)
         if isinstance(v, PDict):
@@ -1301,6 +1315,13 @@ class Models:
 
     # ---- bound methods of engine containers
     def call_bound(self, ip, recv, name, args, kwargs, node=None):
+        if isinstance(recv, HeapList):
+            if name == "append":
+                ip.schema.hl_append(ip, recv, args[0])
+                return None
+            if name == "copy":
+                return ip.schema.hl_snapshot(ip, recv)
+            raise Unsupported(f"list.{name} on a heap list")
         if isinstance(recv, PList):
             if name == "append":
                 recv.items.append(args[0])
